@@ -292,6 +292,10 @@ theorem prevOK_isSome {s : CallSt} {fin : Option PVal} {v : Vtx} (hk : v.isData 
 theorem copyFrom_store_eq (s : CallSt) (v u : Vtx) (h : u.isOut = false) : copyFrom s (some u) v = s := by
   cases u <;> first | rfl | simp [Vtx.isOut] at h
 
+theorem valCopy_store_eq (c : Ctx) (s : CallSt) (v u : Vtx) (h : u.isOut = false) (h' : u.isValue = false) :
+    valCopy c s (some u) v = s := by
+  cases u <;> first | rfl | (simp [Vtx.isOut] at h; done) | simp [Vtx.isValue] at h'
+
 theorem pair_of_fst {α β : Type} (p : α × β) (a : α) (h : p.1 = a) : p = (a, p.2) := by
   cases p; simp only at h; subst h; rfl
 
@@ -317,11 +321,11 @@ theorem walkStep_winv (gf : Facts c N tk Sup) (rec : Vtx → CallSt → Except R
     | value n t x =>
       rw [walkStep_value c rec herr, hu]
       -- the copy
-      have key : SInv c N Sup (copyFrom w.s (some u) (.value n t x)) ∧
-          ((copyFrom w.s (some u) (.value n t x)).get (.value n t x)).isSome = true := by
+      have key : SInv c N Sup (valCopy c w.s (some u) (.value n t x)) ∧
+          ((valCopy c w.s (some u) (.value n t x)).get (.value n t x)).isSome = true := by
         cases u with
         | root =>
-          rw [copyFrom_store_eq _ _ _ rfl]
+          rw [valCopy_store_eq _ _ _ _ rfl rfl]
           rcases gf.toRoot _ he with h | h
           · cases h
           · exact ⟨hS, hS.sup _ h⟩
@@ -337,9 +341,9 @@ theorem walkStep_winv (gf : Facts c N tk Sup) (rec : Vtx → CallSt → Except R
           refine ⟨hS.set _ _ (hS.typed (.out t' x') a ha), ?_⟩
           rw [get_set]; simp
         | func k =>
-          rw [copyFrom_store_eq _ _ _ rfl]
+          rw [valCopy_store_eq _ _ _ _ rfl rfl]
           exact ⟨hS, hP _ (mem_ins_of_hasEdge _ _ _ he)⟩
-      generalize copyFrom w.s (some u) (.value n t x) = s1 at key
+      generalize valCopy c w.s (some u) (.value n t x) = s1 at key
       obtain ⟨k1, k2⟩ := key
       refine ⟨fun e h => (no_err herr h).elim, fun _ => ⟨k1.congr rfl rfl, ?_⟩⟩
       obtain ⟨a, ha⟩ := Option.isSome_iff_exists.1 k2
